@@ -96,14 +96,43 @@ fn debug_sh(args: &[String]) {
             rest = &rest[1..];
         }
     }
+    let mut inject: Option<u64> = None;
+    let mut feed_lines = false;
+    while let Some(f) = rest.first() {
+        if let Some(n) = f.strip_prefix("--inject=") {
+            inject = n.parse().ok();
+            rest = &rest[1..];
+        } else if f == "--feed" {
+            feed_lines = true;
+            rest = &rest[1..];
+        } else {
+            break;
+        }
+    }
     a.extend(rest.iter().cloned());
     let mut cfg = vsh::VCfg::with_args(a);
+    if let Some(at) = inject {
+        cfg.on_step = Some(Box::new(move |state, step| {
+            if step == at {
+                let mut st = state.borrow_mut();
+                if let Some(p) = st.processes.get_mut(&yash_env::job::Pid(2)) {
+                    let r = p.raise_signal(yash_env::system::r#virtual::SIGUSR1);
+                    eprintln!("[inject at step {step}: {r:?}]");
+                }
+            }
+        }));
+    }
     cfg.strategy = strat;
     cfg.extra = vsh::v_probes();
     let mut input = Vec::new();
     if !rest.iter().any(|x| x == "-c") {
         use std::io::Read;
         std::io::stdin().read_to_end(&mut input).ok();
+    }
+    if feed_lines {
+        let text = String::from_utf8_lossy(&input).into_owned();
+        cfg.stdin_chunks = Some(text.split_inclusive('\n').map(|l| l.as_bytes().to_vec()).collect());
+        input = Vec::new();
     }
     cfg.stdin = input;
     cfg.files.push(("/tmp/ff".into(), vsh::FileSpec::Fifo));
